@@ -16,7 +16,13 @@ def corpus(sd, tr):
     q = tr == 'quick'; progs = []
     def take(cases, n):
         # a seeded sample (a fixed stride aliases with the generators' type rotation: every 4th case has the same element type)
-        return sorted(LCG(sd * 31 + len(cases)).sample(cases, n), key=lambda c: c['id'])
+        # plus the generators' systematic families (always present)
+        sysc = []; seen_shapes = set()
+        for c in cases:
+            key = (c.get('M'), c.get('K'), c.get('N'), c.get('tl'), c.get('tr'))
+            if c.get('sys') and c.get('ty') in ('double', 'float') and key not in seen_shapes: seen_shapes.add(key); sysc.append(c)
+        rest = [c for c in cases if not c.get('sys')]
+        return sorted(LCG(sd * 31 + len(cases)).sample(rest, n) + sysc, key=lambda c: c['id'])
     cs = take(c01.gen_cases(sd, 'quick'), 60 if q else 200); progs.append(('matmul', c01.cpp_source(cs, False), 'c++14'))
     cs = take(c17.gen_cases(sd, 'quick'), 40 if q else 120); progs.append(('tmatmul', c17.cpp_source(cs), 'c++14'))
     cs = take(c02.gen_cases(sd, 'quick'), 60 if q else 200); progs.append(('expressions', c02.cpp_source(cs), 'c++14'))
